@@ -10,6 +10,7 @@ use serde_json::{json, Value};
 fn minimal_event(s: &PartialDSym, base_out: Option<&PartialDSym>) -> (Value, Option<PartialDSym>) {
     let mut e = json!({"ev": "minimal", "in": dsym_json(s)});
     pending(&e);
+    with_decoy(s, |d| { let _ = (minimal_image(d), d.is_minimal()); });
     match catch(|| (minimal_image(s), s.is_minimal())) {
         Ok((o, b)) => {
             e["out"] = dsym_json(&o); e["ismin"] = json!(b);
@@ -23,6 +24,7 @@ fn minimal_event(s: &PartialDSym, base_out: Option<&PartialDSym>) -> (Value, Opt
 fn auts_event(s: &PartialDSym) -> Value {
     let mut e = json!({"ev": "auts", "in": dsym_json(s)});
     pending(&e);
+    with_decoy(s, |d| { let _ = d.automorphisms(); });
     match catch(|| s.automorphisms()) {
         Ok(a) => { e["auts"] = json!(a.iter().map(|m| m[1..].to_vec()).collect::<Vec<_>>()); }
         Err(m) => { e["panic"] = json!(m); }
